@@ -21,6 +21,7 @@ import sys
 
 VERIF = os.path.dirname(os.path.dirname(os.path.abspath(__file__)))
 SCRATCH = "/tmp/seedtest_repo_{}".format(os.getpid())
+VCOPY = "/tmp/seedtest_verif_{}".format(os.getpid())   # private copy of /verif (generated files and build are per run)
 PY = "/venv/bin/python"
 
 
@@ -59,17 +60,19 @@ def main():
     meta["demo_output_with_change"] = out1[-400:]
     print("tests:", meta["tests_with_change"], "| demo with change exit", rc1, "| without", rc0)
     results = {}
+    shutil.rmtree(VCOPY, ignore_errors=True)
+    sh("rsync -a --exclude .git --exclude replays --exclude seeded {}/ {}/".format(VERIF, VCOPY))
     for p in [pid] + also:
-        rc, out = sh("./check {} --tier {}".format(p, tier), cwd=VERIF, env={"QEXPY_REPO": SCRATCH})
+        rc, out = sh("./check {} --tier {}".format(p, tier), cwd=VCOPY, env={"QEXPY_REPO": SCRATCH})
         viol = re.findall(r"VIOLATION property=(\S+) replay=(\S+)( no-failing-input-found)?", out)
         res = {"exit": rc, "violations": len(viol), "no_failing_input": any(v[2] for v in viol),
-               "lines": [l for l in out.split("\n") if l.strip()][:8]}
+               "lines": [l.replace(VCOPY, VERIF) for l in out.split("\n") if l.strip()][:8]}
         # replay the first concrete violation on both trees
         conc = [v for v in viol if not v[2]]
         if conc:
             rp = conc[0][1]
-            r_m, _ = sh("./check {} --replay {}".format(p, rp), cwd=VERIF, env={"QEXPY_REPO": SCRATCH})
-            r_o, _ = sh("./check {} --replay {}".format(p, rp), cwd=VERIF, env={"QEXPY_REPO": "/repo"})
+            r_m, _ = sh("./check {} --replay {}".format(p, rp), cwd=VCOPY, env={"QEXPY_REPO": SCRATCH})
+            r_o, _ = sh("./check {} --replay {}".format(p, rp), cwd=VCOPY, env={"QEXPY_REPO": "/repo"})
             res["replay_fails_on_change"] = r_m == 1
             res["replay_passes_on_original"] = r_o == 0
             try:
@@ -80,9 +83,8 @@ def main():
         print(p, "->", "VIOLATION" if viol else "not detected", "(no-failing-input-found)" if res["no_failing_input"] and not conc else "",
               res.get("replay", "")[:160])
     meta["checks"] = results
-    # restore generated files / build for the real repo
-    sh("./check {} --tier quick >/dev/null 2>&1".format(pid), cwd=VERIF)
     shutil.rmtree(SCRATCH, ignore_errors=True)
+    shutil.rmtree(VCOPY, ignore_errors=True)
     ok = meta["tests_pass"] and (rc1 == 0 if benign else rc1 != 0) and rc0 == 0
     meta["valid_seed"] = ok
     meta["detected"] = results[pid]["violations"] > 0
